@@ -405,7 +405,7 @@ def ctor_case(ctx, rnd, i):
         rnd.shuffle(kw)
     how = "well-formed"
     if mal:
-        how = rnd.choice(["surplus-positional", "unknown-keyword", "double-star-mapping", "given-twice"])
+        how = rnd.choice(["surplus-positional", "unknown-keyword", "double-star-mapping", "given-twice", "starred-positional"])
         if how == "given-twice" and not (pos and kind != "dataclass-initvar"):
             how = "unknown-keyword"
         if how == "surplus-positional":
@@ -414,6 +414,9 @@ def ctor_case(ctx, rnd, i):
         elif how == "given-twice":
             # a field bound by position and again by keyword (python: "multiple values for argument"): a surplus argument
             kw = [(n, v) for n, v in kw if n != names[0]] + [(names[0], astx.parse_expr("e.again"))]
+        elif how == "starred-positional":
+            # C(*e.pair): which fields the spread values bind is only known when the query runs
+            pos = [ast.Starred(value=astx.parse_expr("e.pair"), ctx=ast.Load())] + pos[1:]
         elif how == "double-star-mapping":
             # C(e.a, **e.rest): which fields the mapping binds cannot be known - an argument that is not one of the fields
             kw.append((None, astx.parse_expr("e.rest")))
@@ -429,8 +432,8 @@ def ctor_case(ctx, rnd, i):
     ctx.count("ctor:" + kind)
     witness = {"ctor": text}
     try:
-        if any(n is None for n, _ in kw):
-            raise TypeError("mapping argument")
+        if any(n is None for n, _ in kw) or any(isinstance(p_, ast.Starred) for p_ in pos):
+            raise TypeError("mapping / starred argument")
         bound = inspect.signature(cls).bind(*pos, **dict(kw))
         # python's constructor binds the fields the call leaves out to their defaults
         given = set(bound.arguments)
@@ -474,10 +477,18 @@ def ctor_case(ctx, rnd, i):
         keep = [(k, v) for k, v in zip(got_keys, d.values) if k != "scale_"]
         got_keys, d = [k for k, _ in keep], ast.Dict(keys=[ast.Constant(value=k) for k, _ in keep], values=[v for _, v in keep])
         exp_keys = [k for k in exp_keys if k != "scale_"]
-    if got_keys != exp_keys:
-        ctx.violation("constructor-keys-differ", f"{text}: dict keys {got_keys}, python binds {exp_keys}", witness)
+    # fields the constructor takes no argument for (field(init=False, default=..)): every instance python makes has them, with
+    # their default value - after the constructor's own parameters, in any order
+    extra = {f.name: f.default for f in dataclasses.fields(cls) if not f.init and f.default is not dataclasses.MISSING} if dataclasses.is_dataclass(cls) else {}
+    if got_keys[:len(exp_keys)] != exp_keys or sorted(got_keys[len(exp_keys):]) != sorted(extra):
+        ctx.violation("constructor-keys-differ", f"{text}: dict keys {got_keys}, python binds {exp_keys}" + (f" and gives every instance {sorted(extra)}" if extra else ""), witness)
         return
-    for k, v in zip(got_keys, d.values):
+    for k, v in list(zip(got_keys, d.values))[len(exp_keys):]:
+        ctx.count("ctor-fields-without-a-parameter-left-to-their-default")
+        if not (isinstance(v, ast.Constant) and type(v.value) is type(plain_default(extra[k])) and v.value == plain_default(extra[k])):
+            ctx.violation("constructor-field-bound-to-wrong-argument", f"{text}: field {k} (init=False) = {astx.unparse(v)}, python gives it {extra[k]!r}", witness)
+            return
+    for k, v in list(zip(got_keys, d.values))[:len(exp_keys)]:
         if not astx.struct_eq(v, bound.arguments[k]):
             ctx.violation("constructor-field-bound-to-wrong-argument", f"{text}: field {k} = {astx.unparse(v)}, python binds {astx.unparse(bound.arguments[k])}", witness)
             return
